@@ -136,7 +136,7 @@ def harness_for(cfg):
                 o = E.int(f"o{i}", 0, top * ratio + 2) if a["off"] else None
                 try:
                     b.add(a["name"], r, offset=o)
-                except ValueError:
+                except (ValueError, TypeError):
                     E.observe("add-refused")
                     E.prove(o is not None and (o % ratio != 0), "add() refused an offset that is a multiple of data_width/granularity")
                     continue
@@ -176,7 +176,7 @@ def harness_for(cfg):
                     if i == 0:
                         other.add("solo", Reg(8))          # scopes of `b` must not leak into `other`
                     b.add(a["name"], r, offset=o)
-            except ValueError:
+            except (ValueError, TypeError):
                 refused = True
             if refused:
                 E.observe("add-refused")
